@@ -218,6 +218,23 @@ def idempotence_layouts(kind, base):
     return out
 
 
+def mp4_size0_moov(d):
+    """moov as the last top-level atom, written with size field 0 (= extends to the end of the file)"""
+    atoms = W.mp4_atoms(d)
+    last = atoms[-1]
+    if last["name"] != b"moov" or last["hdr"] != 8:
+        return None
+    return d[:last["off"]] + b"\x00\x00\x00\x00" + d[last["off"] + 4:]
+
+
+def flac_long_total(d):
+    """STREAMINFO with a total sample count above 2^32 (the field has 36 bits)"""
+    if d[:4] != b"fLaC" or d[4] & 0x7F != 0:
+        return None
+    p = 8 + 13
+    return d[:p] + bytes([(d[p] & 0xF0) | 0x1]) + d[p + 1:]
+
+
 def extra_samples(kind, base):
     """base: list of (name, bytes) real samples of the kind -> list of synthetic (name, bytes)"""
     out = []
@@ -247,7 +264,16 @@ def extra_samples(kind, base):
             items = [(b"Title", b"Synth"), (b"Artist", b"Someone")]
             out.append(("synth-ape-headerless+" + name0, body + ape_tag(items, header=False, version=1000)))
             out.append(("synth-ape+id3v1+" + name0, body + ape_tag(items) + id3v1()))
+        elif kind.name == "FLAC":
+            x = flac_long_total(d0)
+            if x:
+                out.append(("synth-total-above-2^32+" + name0, x))
         elif kind.family == "mp4":
+            for nm, dd in base:
+                x = mp4_size0_moov(dd)
+                if x:
+                    out.append(("synth-size0-moov+" + nm, x))
+                    break
             for nm, dd in base:
                 x = mp4_opaque_items(dd)
                 if x:
